@@ -1,12 +1,19 @@
 """C24 — structural array operations equal NumPy.
 
-Model:    lean/DaskModel/Model/Structural.lean (concatenate plan, Python slices, roll, repeat, pad reuse
-          modes and NumPy's periodic extension, pad chunk arithmetic, expand_tuple / contract_tuple /
-          _calc_lower_dimension_chunks, merge-reshape of row blocks)
+Models:   lean/DaskModel/Model/Structural.lean (concatenate plan, Python slices, roll, repeat, pad reuse modes and NumPy's
+          periodic extension, pad chunk arithmetic, expand_tuple / contract_tuple, packGroups / shuffleChunk),
+          Model/ShufflePlan.lean (_shuffle as a whole: _validate_indexer, the "already shuffled" shortcut, the single-source
+          branch; slicing.take's arange shortcut and indexer),
+          Model/ReshapeRechunk.lean (reshape_rechunk in full: walk, merge / split branches, _smooth_chunks, n-ary
+          _calc_lower_dimension_chunks; blocksFlat = block-level semantics of reshape's graph),
+          Model/StructuralOps.lean (block plans of transpose / flip / rot90 / tril / triu / stack / broadcast_to / tile / diff)
 Theorems: lean/DaskModel/Props/C24.lean
-Tie:      function-level diffs (expand_tuple, contract_tuple, lower-dimension chunks, concatenate's key map,
-          get_pad_shapes_chunks, 1-d pad / roll values vs the Lean plans), property oracles on reshape_rechunk's
-          real outputs, API-level: every operation of the statement vs NumPy for irregular chunkings.
+Tie:      function-level diffs (expand_tuple, contract_tuple, _calc_lower_dimension_chunks, reshape_rechunk, _shuffle,
+          slicing.take, concatenate's key map, stack's key map, get_pad_shapes_chunks), block-level diffs (every block of
+          the real result vs the Lean plan: pad / roll 1-d, shuffle / take, reshape (rechunked input and result),
+          transpose / flip / rot90 / tril / triu / stack / broadcast_to / tile), property oracles on real outputs
+          (proved-plan checker groupsOK on every reshape_rechunk output, no-op shortcut only for the identity indexer),
+          API level: every operation of the statement vs NumPy for irregular chunkings, empty axes, zero-length chunks.
 """
 from __future__ import annotations
 
@@ -22,29 +29,39 @@ READY = True
 DRIVER = "dm_chunks"
 LEAN_MODULES = ["DaskModel.Props.C24"]
 CASE_TIMEOUT_S = 30
-LEVEL_TEXT = ("Lean 4 theorems for one-axis block plans: concat_den / concat_blocks (concatenate's key map = blockOf on block "
-              "counts; result chunks and values), roll_den (two-slice concatenate = NumPy roll for every shift), repeat_den, "
-              "shuffle_den (take/shuffle: per-source-chunk fancy getitem of the sorted taker + concatenate + "
-              "take(argsort(sorter)) puts taker[p] at position p, for every chunking and taker) and packGroups_flatten "
-              "(the grouping loop loses/reorders nothing; instantiated at the tolerance extracted from dask.yaml), "
-              "pad_reuse_den (full: reflect/symmetric/wrap = NumPy's periodic extension for EVERY pad width, also wider "
-              "than the axis - the repaired pad_reuse assembles each side from alternately reversed copies; defect #16 "
-              "fixed), expand_tuple_spec, "
-              "contract_tuple_spec, reshape_merge_den and reshape_merge_ones_den (C-order index preserved for the two plans "
-              "reshape_rechunk uses for (R,m)<->(R*m,): whole rows per block / one row per block; every real 2-d<->1-d plan "
-              "is checked to be one of them). "
-              "Everything else in the statement (transpose/moveaxis/swapaxes, squeeze/expand_dims, stack/block, "
-              "broadcast_to, flip/rot90, tile, other pad modes, tril/triu, diff, the full reshape_rechunk) is validated "
-              "against NumPy over irregular chunkings and empty axes, not proved.")
-LEVEL_NOTE = ("Trusted: Lean kernel + standard axioms; the harness; NumPy block kernels; n-d = product of one-axis plans "
-              "(validated). No known finding is left for this property.")
-TECHNIQUE = "Lean 4 proof (list/index-map lemmas per operation plan) + differential correspondence"
+LEVEL_TEXT = ("Lean 4 theorems, all for every chunking (irregular, size-1, zero-length chunks) over exact values and without size "
+              "bounds. (1) reshape: the real reshape_rechunk is modelled in full (two-pointer walk, merge / split branches, the "
+              "'moving blocks' special case, _smooth_chunks rounds, expand_tuple / contract_tuple); reshape_rechunk_groupsOK: every "
+              "plan it returns for valid input chunks assigns every axis, adds up to both shapes and is a product of contiguous "
+              "axis groups with equal block sizes (invariant of the walk); reshape_blocks_den / reshape_den: for such plans the "
+              "k-th block of the rechunked input reshaped in C order IS the k-th block of the reshaped array (any number of "
+              "axes); plus expand_tuple_spec, contract_tuple_spec, reshape_merge_den, reshape_merge_ones_den. (2) take / shuffle: "
+              "_shuffle as a whole - shuffle_noop_iff_identity (the 'already shuffled' shortcut is taken exactly for the identity "
+              "chunking), shuffle_den (per-source-chunk fancy getitem of the sorted taker + concatenate + take(argsort(sorter))), "
+              "packGroups_flatten (extracted tolerance), shuffle_blocks_den, take_den (slicing.take's arange shortcut and "
+              "indexer), totality for valid indexers. (3) one-axis plans: concat_den / concat_blocks, roll_den, repeat_den, "
+              "pad_reuse_den (reflect / symmetric / wrap for every width), flip1d_den, tile_den, diff_den. (4) 2-d block plans: "
+              "transpose_den (also .T / swapaxes / moveaxis), flip_den, rot90_den (k = 1, 2, 3), tril_den, triu_den, stack_den, "
+              "broadcast_to_den. Validated against NumPy only (not proved): the n-d product structure of the 1-d / 2-d plans, "
+              "squeeze (integer indexing), block / n-d tile (nested concatenate), edge / constant / linear_ramp / statistics pads, "
+              "repeat's slab cutting, shuffle's _rechunk_other_dimensions, positivity of _smooth_chunks' output chunks (checked "
+              "on every real output), x.rechunk(result_inchunks) itself (C23).")
+LEVEL_NOTE = ("Trusted: Lean kernel + standard axioms; the harness; NumPy kernels on one block; model = code is a checked tie "
+              "(function-level diff of reshape_rechunk on every factorisation pair of n<=6 (9 thorough) x every chunking and of "
+              "_shuffle / slicing.take on every permutation of n<=4 (5) cut at every chunking, block-level diffs, proved-plan "
+              "checker on every real reshape_rechunk output), not a proof. _shuffle's chunk_size_limit is computed with the "
+              "code's float formula by the harness. No known finding is left for this property.")
+TECHNIQUE = ("Lean 4 proof (loop invariant of reshape_rechunk's walk; blocksFlat over concatenated axis groups; index-map and "
+             "list lemmas per operation plan) + differential correspondence at function, block and API level")
 ASSUMPTIONS = [
-    "n-d operations act axis by axis (product structure): theorems are one-axis, the n-d behaviour is validated against NumPy",
+    "n-d operations act axis by axis (product structure): the 1-d / 2-d theorems cover one / two axes, the n-d behaviour is validated against NumPy",
     "np.pad's reflect/symmetric/wrap = the periodic extension `padSpec` (validated against np.pad on every pad case, widths up to several periods)",
-    "NumPy kernels on one block (reshape, transpose, getitem, concatenate, repeat, where) are NumPy's",
+    "NumPy kernels on one block (reshape keeps the C-order data, transpose, fancy getitem, concatenate, repeat, where, broadcast_to, arange) are NumPy's",
+    "reshape is applied to chunk tuples of the input shape (non-empty, positive): reshape() drops zero-length chunks and handles empty / single-block arrays before reshape_rechunk",
+    "x.rechunk(result_inchunks) delivers the blocks of the same array under the new chunking (C23: rechunk_values_unchanged)",
+    "_shuffle: int(sum(chunks)/len(chunks)*tolerance) is evaluated in floating point by the code; the model takes the value as a parameter",
 ]
-TRUSTED = []
+TRUSTED = ["arange block values are the global positions (C34 arange_den) - used by tril_den / triu_den's mask"]
 TABLES = ["ChunkTolerance"]
 REUSE = ("reflect", "symmetric", "wrap")
 
@@ -244,7 +261,10 @@ def case_concat(ctx, inp):
     if op == "concatenate":
         r, e = da.concatenate(ds, axis=axis), np.concatenate(xs, axis=axis)
         dask_in = [d for d in ds if isinstance(d, da.Array)]
-        if len(ds) > 1 and len(dask_in) == len(ds):
+        if any(x.size == 0 for x in xs):
+            ctx.branch("concat:empty-input-dropped")
+        if len(ds) > 1 and len(dask_in) == len(ds) and r.name.startswith("concatenate-") \
+                and len({d.name for d in dask_in}) == len(ds):   # equal (e.g. empty) inputs share one name
             # function level: the key map of the concatenate layer vs the Lean plan
             ax = axis % xs[0].ndim
             layer = r.dask.layers[r.name]
@@ -402,7 +422,13 @@ def case_op(ctx, inp):
         r, e = da.rot90(d, inp["k"], tuple(inp["axes"])), np.rot90(x, inp["k"], tuple(inp["axes"]))
     elif op == "take":
         idx, ax = inp["idx"], inp["axis"]
-        r, e = da.take(d, idx, axis=ax), np.take(x, idx, axis=ax)
+        if inp.get("np_source"):
+            # a NumPy array indexed by a dask array of indices (_take_dask_array_from_numpy)
+            di = da.from_array(np.asarray(idx), chunks=inp.get("idx_chunks", 2))
+            r, e = da.take(x, di, axis=ax), np.take(x, np.asarray(idx), axis=ax)
+            ctx.branch("op:take:numpy-source-dask-indices")
+        else:
+            r, e = da.take(d, idx, axis=ax), np.take(x, idx, axis=ax)
     elif op == "shuffle":
         groups, ax = inp["groups"], inp["axis"]
         r = d.shuffle(groups, axis=ax)
@@ -413,6 +439,8 @@ def case_op(ctx, inp):
         axc = d.chunks[ax]
         tol = dask.config.get("array.chunk-size-tolerance")
         limit = int(sum(axc) / len(axc) * tol)
+        if x.ndim > 1 and max(map(len, groups)) > max(axc) * tol:
+            ctx.branch("shuf:rechunk-other-dimensions")
         out_chunks, layer = _shuffle(d.chunks, groups, ax, d.name, "out", "tok")
         if layer:
             m = ctx.lean(Sym("shuffle"), list(axc), groups, limit, [int(v) for v in x] if x.ndim == 1 else [0] * sum(axc))
@@ -570,6 +598,8 @@ def case_shuf(ctx, inp):
         if any(tuple(out_chunks[i]) != d.chunks[i] for i in range(x.ndim) if i != ax):
             ctx.fail("_shuffle changed the chunks of another axis", observed=out_chunks)
         ctx.branch("shuf:" + kind + (":shortcut" if noop else ""))
+        if x.ndim > 1 and max(map(len, groups)) > max(old) * tol:
+            ctx.branch("shuf:rechunk-other-dimensions")
         # ---- API level: x.shuffle / da.shuffle -------------------------------------------------------------------------
         flat = [i for g in groups for i in g]
         e = np.take(x, flat, axis=ax)
@@ -752,7 +782,10 @@ def case_grid(ctx, inp):
         if not _same(ctx, op, r, e, blocks=False):
             return
         real = [np.asarray(r.blocks[i].compute(scheduler="sync")).tolist() for i in range(len(r.chunks[0]))]
-        # flip drops nothing; zero-length chunks stay where they are (reversed order)
+        if m != real and 0 in cs:
+            # slicing drops zero-length chunks (the values are unaffected): compare the non-empty blocks
+            ctx.branch("grid:zero-length-chunks-dropped")
+            m, real = [b for b in m if b], [b for b in real if b]
         ctx.eq(f"{op}: the list of blocks vs the Lean plan", m, real)
         ctx.branch("grid:" + op)
     else:
@@ -897,6 +930,8 @@ def _gen_op(rng):
         n = shape[ax]
         inp["axis"] = ax if rng.random() < 0.7 else ax - nd
         inp["idx"] = [rng.randrange(-n, n) for _ in range(rng.randint(1, 8))]
+        if rng.random() < 0.2:
+            inp["np_source"], inp["idx_chunks"] = True, rng.randint(1, 4)
     elif op == "shuffle":
         ax = rng.randrange(nd)
         n = shape[ax]
@@ -1189,7 +1224,7 @@ def generate(ctx):
         for _i in range(k):
             shape = list(base)
             if op == "concatenate":
-                shape[axis] = rng.randint(1, 5)
+                shape[axis] = rng.randint(1, 5) if rng.random() > 0.12 else 0   # an empty array among the inputs is dropped
             chunkss.append([rand_comp(rng, s) for s in shape])
         if op == "stack":
             axis = rng.randint(-nd - 1, nd)
